@@ -185,6 +185,15 @@ def run(tier, seed):
                 out.append((name, key, config, cs, cm, fut))
         return out
 
+    # Quick tier: of the misuse cells (each one kills a forked driver copy on the unchanged tree) only the explicit
+    # `return -1 / -1.0 / NULL` from an `except -1 / -1.0 / NULL` function is executed, in every kind and context;
+    # the other declared values and the fall-off-the-end bodies are executed in the thorough tier.
+    def executed(c):
+        if tier != "quick" or not c["misuse"]:
+            return True
+        return c["body"] == c["sv"] and c["sv"] in ("-1", "-1.0", "NULL")
+    n_misuse_skipped = sum(1 for c in cases if not executed(c))
+
     compat = {}
     for c in cases:
         if c["ctx"] == "fptr":      # judged on the legitimate bodies only (the misuse bodies are forbidden by the documentation)
@@ -194,7 +203,7 @@ def run(tier, seed):
     with concurrent.futures.ThreadPoolExecutor(core.NCPU) as ex:
         mods = collections.OrderedDict()
         for c in cases:
-            if not is_cross(c):
+            if not is_cross(c) and executed(c):
                 mods.setdefault(c["kind"] + ("_lg" if c["lg"] else ""), []).append(c)
         jobs = submit(ex, mods)
         cpp_src, cpp_map = L.render_cpp(cpp_cases)
@@ -209,7 +218,7 @@ def run(tier, seed):
         t_phase["accept_study_done"] = round(time.time() - t0, 1)
         xmods = collections.OrderedDict()
         for c in cases:
-            if is_cross(c) and pair_of(c) not in rejected:
+            if is_cross(c) and pair_of(c) not in rejected and executed(c):
                 xmods.setdefault(c["kind"] + "_x" + ("_lg" if c["lg"] else ""), []).append(c)
         jobs += submit(ex, xmods)
         results = [(name, key, config, cs, cm, fut.result()) for name, key, config, cs, cm, fut in jobs]
@@ -323,6 +332,7 @@ def run(tier, seed):
         "traces_validated_against_impl": n_eval, "evaluations": n_eval, "distinct_nontrivial": len(nontriv),
         "exhaustive": True, "cases_c": len(cases), "cases_cpp": len(cpp_cases),
         "cases_not_built_because_cython_rejects_the_pointer_assignment": sum(1 for c in cases if c["ctx"] == "fptr" and pair_of(c) in rejected),
+        "misuse_cells_left_to_the_thorough_tier": n_misuse_skipped,
         "function_types_compared_with_model": facts_checked, "modules": sorted(modules), "configs": [c for c, _ in configs],
         "phase_s": t_phase, "module_start_build_run_s": t_mod,
         "rule": "every state of ExcSpec (kind x specification x return type x declared value x body x caller context x pointer type"
